@@ -880,8 +880,9 @@ def check_C02(tier, seed):
            "consts": [], "overrides": [], "functions": [],
            "entries": [{"name": "cs_main", "stage": "compute", "params": [], "body": [{"k": "access", "g": "growable", "how": "load"}, {"k": "access", "g": "odd", "how": "array_length"}], "wg": ["1"]}]}
     ctx.append({"id": "rt-header", "family": "runtime-array-with-header", "S": rtS, "opts": F.opts(enc=True, mv="glam")})
-    for i, src_ in enumerate(["@group(0) @binding(0) var texs: binding_array<texture_2d<f32>, 4>;\n@group(0) @binding(1) var smp: sampler;\n@fragment fn fs_main() -> @location(0) vec4<f32> { return textureSample(texs[1], smp, vec2<f32>(0.5)); }\n",
-                              "@group(0) @binding(0) var smps: binding_array<sampler, 2>;\n@group(0) @binding(1) var t: texture_2d<f32>;\n@fragment fn fs_main() -> @location(0) vec4<f32> { return textureSample(t, smps[0], vec2<f32>(0.5)); }\n",
+    for i, src_ in enumerate(["@group(0) @binding(0) var texs: binding_array<texture_2d<f32>, 4>;\n@group(0) @binding(1) var<storage, read_write> o: vec4<f32>;\n@compute @workgroup_size(1) fn cs_main() { o = textureLoad(texs[1], vec2<i32>(0), 0); }\n",
+                              "@group(0) @binding(0) var smps: binding_array<sampler, 2>;\n@group(0) @binding(1) var t: texture_2d<f32>;\n@group(0) @binding(2) var<storage, read_write> o: vec4<f32>;\n@compute @workgroup_size(1) fn cs_main() { o = textureSampleLevel(t, smps[0], vec2<f32>(0.5), 0.0); }\n",
+                              "@group(0) @binding(0) var<storage, read> bufs: binding_array<array<u32, 4>, 2>;\n@group(0) @binding(1) var<storage, read_write> o: u32;\n@compute @workgroup_size(1) fn cs_main() { o = bufs[1][0]; }\n",
                               "@group(0) @binding(0) var<storage, read_write> counter: atomic<u32>;\n@compute @workgroup_size(1) fn cs_main() { atomicAdd(&counter, 1u); }\n"]):
         ctx.append({"id": "raw-unsupported-%d" % i, "family": "resource-kinds-outside-the-feature-set", "wgsl": src_, "opts": F.opts()})
     ctx.append({"id": "twin-groups", "family": "groups-with-equal-resources", "S": F.twin_groups_shader(), "opts": F.opts()})
